@@ -270,7 +270,8 @@ def uncleaned(links, cache, containers, apps_dir, only_previously_running,
 
 def unchanged_set(links, cache, containers, apps_dir):
     """Running containers whose manifest is the cached one and that are not
-    finished: {inst: (container, configure count, cache version)}."""
+    finished: {inst: (container, configure count, cache version,
+    incarnation of the container directory)}."""
     out = {}
     for (kind, inst), target in sorted(links.items()):
         if kind != 'running':
@@ -285,7 +286,8 @@ def unchanged_set(links, cache, containers, apps_dir):
             continue
         if is_terminated(apps_dir, target):
             continue
-        out[inst] = (target, rec['configures'], ent['ver'])
+        out[inst] = (target, rec['configures'], ent['ver'],
+                     rec.get('incarnation'))
     return out
 
 
@@ -293,7 +295,7 @@ def disturbed(unchanged, links, cache, containers, apps_dir, when, hist):
     """Every member of `unchanged` whose cache entry is still the same and
     that did not finish meanwhile is still running, untouched."""
     for inst in sorted(unchanged):
-        target, configures, ver = unchanged[inst]
+        target, configures, ver, incarnation = unchanged[inst]
         ent = cache.get(inst)
         if ent is None or ent['ver'] != ver:
             continue
@@ -315,6 +317,14 @@ def disturbed(unchanged, links, cache, containers, apps_dir, when, hist):
                     'via-marked-terminated' % when,
                     'container %s of unchanged cache/%s was marked '
                     'terminated' % (target, inst))
+        if rec.get('incarnation') != incarnation:
+            # same name, but the directory was cleaned up and made again:
+            # what took the running link away in between?
+            item = _last(hist, target, 'unlink', 'running')
+            via = 'via-' + _by(item['by']) if item else 'via-other'
+            return ('C13:unchanged-container-disturbed:%s:%s' % (when, via),
+                    'container %s of unchanged cache/%s was handed to '
+                    'cleanup, removed and configured again' % (target, inst))
         if rec['configures'] != configures:
             return ('C13:unchanged-container-disturbed:%s:via-configured-'
                     'again-%s' % (when, _by(rec['last_configure'])),
